@@ -141,7 +141,7 @@ EXTRA = [
     ("", ""),
     ("a\u00a0b", "a b"),  # C.1.2 -> space
     ("a\u3000b", "a b"),
-    ("\u200b", ""),  # B.1
+    ("\u200c", ""),  # B.1
     ("\ufeff\u2060", ""),
     ("\u0627\u0628", "\u0627\u0628"),  # R/AL only
     ("\u0627a\u0628", None),  # RAL + L
